@@ -42,6 +42,10 @@ func c12(c *Ctx) {
 	coreCommitBundle(c, "R11", "C05.R3")
 	sLockDiscipline(c, "R11/S-LOCK", "commitment")
 	sAsyncNotifyBuffered(c, "R12/S-ASYNC")
+	// a snapshot reported durable that is not there: the log is compacted past
+	// it and a member behind the compaction point can never catch up
+	c15R1(c, "R13/C15.R1")
+	c15R2(c, "R13/C15.R2")
 }
 
 func c12R1(c *Ctx, rule string) {
